@@ -9,6 +9,9 @@
 (B) the one-line wrappers lattice / buckshot / sparsity with full_output=1; the ensemble they build is
     recovered from the closure handed to the map, so the same oracle applies to the returned tuple.
 (C) E2: BuckshotSolver with every answer of every numpy `rand` entry in {0, 0.5, 1-eps}.
+(A5/A6) range modes tight / clip through the class API and the wrappers' tightrange / cliprange, each member compared
+    with a stand-alone nested solver (differential oracle); differential-evolution members (DE, DE2), whose best is
+    kept apart from population[0].
 (G) E3/E2 point generators: gridpts, samplepts / random_samples (every draw), fillpts (seeded),
     randomly_bin (every sort-key answer).
 """
@@ -175,6 +178,8 @@ def judge(R):
         bad('best_energy_not_min', 'bestEnergy=%r but the member best energies are %r (min %r)' % (bestE, E, mn))
     elif not any(feq(e, mn) and x == bestX for e, x in zip(E, X)):
         bad('best_solution_not_members', 'bestSolution=%r is not the solution of a member with the minimal energy %r (members %r)' % (bestX, mn, X))
+    if np.isfinite(bestE) and not feq(objective(R, bestX), bestE):
+        bad('best_energy_not_cost_at_best', 'the ensemble reports bestSolution=%r with bestEnergy=%r but cost+penalty there is %r' % (bestX, bestE, objective(R, bestX)))
     # ---- 3. accounting
     ae = [int(v) for v in s._all_evals]
     tot = int(s._total_evals)
@@ -244,6 +249,8 @@ def judge(R):
                 probs.append('strict ranges %r..%r (in use: %r) instead of %r' % (vec(m._strictMin), vec(m._strictMax), m._useStrictRange, box))
         elif m._useStrictRange:
             probs.append('strict ranges in use although the ensemble has none')
+        if box is not None and (m._useTightRange, m._useClipRange) != (cfg.get('tight'), cfg.get('clip')):
+            probs.append('range mode (tight=%r, clip=%r) instead of (tight=%r, clip=%r)' % (m._useTightRange, m._useClipRange, cfg.get('tight'), cfg.get('clip')))
         ctag = getattr(m._constraints, 'tag', None)
         if ctag != (R.con.tag if R.con is not None else None):
             probs.append('constraints %r instead of %r' % (ctag or m._constraints, R.con.tag if R.con is not None else 'none'))
@@ -304,6 +311,27 @@ def judge(R):
                 ok = False
             if not ok:
                 bad('member_stop_untrue', 'member %d stopped with %r but its termination condition is false' % (i, msg[:70]))
+                break
+    # ---- 7. differential: every member behaves like a stand-alone nested solver given the same start and configuration
+    if cfg.get('diff') and cfg['nested'] in ('NM', 'Powell') and starts is not None and cfg.get('clip') is not False and not stray:
+        term = R.term if R.term is not None else mt.NormalizedChangeOverGeneration(1e-4)
+        for i, m in enumerate(members):
+            ref = lab.solo(cfg, starts[i], term)
+            if ref[0] == 'error':
+                bad('standalone_raised', 'a stand-alone %s solver with the ensemble\'s configuration started at %r raised %s: %s' % (cfg['nested'], starts[i], ref[1], ref[2]))
+                break
+            mine = by.get(i, [])
+            if mine != ref[0]:
+                k = next((j for j, (a, b) in enumerate(zip(mine, ref[0])) if a != b), min(len(mine), len(ref[0])))
+                bad('member_differs_from_standalone',
+                    'member %d made %d cost calls, a stand-alone %s solver with the same start %r, box/range mode, constraint, penalty, limits and termination makes %d; '
+                    'first difference at call %d: member %r, stand-alone %r' % (i, len(mine), cfg['nested'], starts[i], len(ref[0]), k,
+                                                                               mine[k] if k < len(mine) else None, ref[0][k] if k < len(ref[0]) else None),
+                    tight=cfg.get('tight'), clip=cfg.get('clip'))
+                break
+            if ref[1] != X[i] or not feq(ref[2], E[i]):
+                bad('member_differs_from_standalone', 'member %d ends at (%r, %r), the stand-alone solver at (%r, %r)' % (i, X[i], E[i], ref[1], ref[2]),
+                    tight=cfg.get('tight'), clip=cfg.get('clip'))
                 break
     # ---- wrappers: the returned tuple
     if ret is not None:
@@ -673,8 +701,8 @@ def configs(ctx):
                                 continue
                             if mp == 'copy' and mode != 'solve' and not th and (requested(L) > 3 or cost == 'steps'):
                                 continue    # dill copies of every member on every round: small ensembles only (quick)
-                            if cost == 'steps' and mp in ('none', 'copy') and not th:
-                                continue    # the tie-rich cost under the two plain maps only (quick)
+                            if cost == 'steps' and (mp in ('none', 'copy') or em) and not th:
+                                continue    # the tie-rich cost under the two plain maps, no evaluation monitor (quick)
                             if slow and th and (mp == 'copyrev' or (L['npts'] > 3 and mode == 'stepsolve')):
                                 continue
                             for lim in lims:
@@ -695,13 +723,16 @@ def configs(ctx):
                                 for term in (None, 'vtr', 'cog1'):
                                     if lim is None and term is None and not th and (requested(L) > 3 or mode != 'solve'):
                                         continue    # run to full convergence: small ensembles only (quick)
+                                    if lim is None and not th and box == 'degen':
+                                        continue    # limit-free runs on two boxes (quick)
                                     if slow and not th and (mode == 'stepsolve' or box != 'unit' or nst != 'NM'):
                                         continue    # fillpts runs diffev per point: one box / nested solver (quick)
                                     if th and ((nst == 'DE' and box != 'unit') or (slow and (box == 'shift' or nst == 'DE'))):
                                         continue    # DE members and the diffev-per-point generator: fewer boxes (thorough)
                                     mp = 'default' if (con is None) == (pen is None) else 'rev'
                                     out.append(dict(L, nested=nst, box=box, con=con, pen=pen, limits=lim, term=term,
-                                                    evalmon=bool(pen), map=mp, mode=mode, cost='sphere', seed=seed + 1))
+                                                    evalmon=bool(pen), map=mp, mode=mode, cost='sphere', seed=seed + 1,
+                                                    diff=bool(th or lim is not None)))
     # A3 the copying map and all evaluation orders with the full configuration switched on
     perms = []
     for L in [L for L in lay if requested(L) in (2, 3) or (th and requested(L) == 4)]:
@@ -717,6 +748,43 @@ def configs(ctx):
                         perms.append(dict(L, nested=nst, box='shift', con='clamp/pure', pen='ramp', limits=[4, None], term='cog1',
                                           evalmon=True, map=['perm', list(p), cp], mode=mode, cost='steps', seed=seed))
     out += perms
+    # A5 range modes: bounds imposed together with the constraints (tight) and/or clipping (clip); every member is
+    # compared with a stand-alone nested solver (differential oracle)
+    lay5 = [{'ens': 'lattice', 'nbins': [2]}, {'ens': 'lattice', 'nbins': [1, 3]}, {'ens': 'lattice', 'nbins': [2, 2]},
+            {'ens': 'buckshot', 'dim': 1, 'npts': 2}, {'ens': 'buckshot', 'dim': 2, 'npts': 3}] + \
+           ([{'ens': 'lattice', 'nbins': [3, 2]}, {'ens': 'sparsity', 'dim': 2, 'npts': 2}] if th else [])
+    for L in lay5:
+        for nst in ('NM', 'Powell'):
+            for mode in modes:
+                for tight, clip in ((True, None), (None, True), (True, True)):
+                    for box in ('shift',) + (('unit', 'degen') if th else ()):
+                        for con in ('clamp/pure', None):
+                            for lim in ([4, None], [None, 9]) + ((None,) if th else ()):
+                                if clip is None and not th and (requested(L) > 3 or box != 'shift' or lim[0] is None or (con is None and mode != 'solve')):
+                                    continue    # symbolic bounds are rebuilt (sympy) for every member: a thin slice (quick)
+                                if clip is None and th and (box != 'shift' or lim is None or requested(L) > 4):
+                                    continue    # symbolic bounds: one box, bounded runs (thorough)
+                                mp = 'copy' if (mode == 'solve' and con and requested(L) <= 3) else ('rev' if con else 'default')
+                                out.append(dict(L, nested=nst, box=box, tight=tight, clip=clip, con=con, pen=None, limits=lim,
+                                                term='cog2' if lim is None else 'never', evalmon=False, map=mp, mode=mode, cost='sphere', seed=seed, diff=True))
+    # A6 nested solvers that keep their best apart from population[0] (differential evolution, both flavours)
+    lay6 = [{'ens': 'lattice', 'nbins': [2]}, {'ens': 'lattice', 'nbins': [2, 2]}, {'ens': 'buckshot', 'dim': 2, 'npts': 2}] + \
+           ([{'ens': 'lattice', 'nbins': [1, 3]}, {'ens': 'buckshot', 'dim': 1, 'npts': 3}, {'ens': 'sparsity', 'dim': 2, 'npts': 2}] if th else [])
+    for L in lay6:
+        for nst in ('DE', 'DE2'):
+            if nst == 'DE' and th:
+                continue            # already in the thorough product above
+            for mode in modes:
+                for mp in ('default', 'none', 'copy'):
+                    if mp == 'copy' and mode != 'solve' and requested(L) > 2 and not th:
+                        continue
+                    for con, pen in ((None, None), ('clamp/pure', 'ramp')):
+                        for lim in ([3, None], [None, 30]):
+                            for cost in ('sphere', 'steps'):
+                                if cost == 'steps' and (mp != 'default' or con):
+                                    continue
+                                out.append(dict(L, nested=nst, box='unit', con=con, pen=pen, limits=lim, term='never', evalmon=bool(con),
+                                                map=mp, mode=mode, cost=cost, seed=seed))
     # A4 integer bin counts (randomly gridded) and no strict ranges
     for N in (1, 2, 3, 4, 6) + ((5, 8, 12) if th else ()):
         for dim in (1, 2, 3):
@@ -757,6 +825,24 @@ def wrapper_configs(ctx):
                                 continue
                             out.append(dict(L, api='wrapper', nested=nst, box=box, con=feat[0], pen=feat[1], limits=lim, term=None,
                                             evalmon=True, map='default', mode=mode, cost='sphere', seed=ctx.seed))
+    # tightrange / cliprange through the wrappers (differential oracle on every member)
+    for L in ({'ens': 'lattice', 'nbins': [2, 2]}, {'ens': 'lattice', 'nbins': [2]}, {'ens': 'buckshot', 'dim': 2, 'npts': 2}):
+        for nst in ('NM', 'Powell'):
+            for mode in ('solve', 'stepsolve'):
+                for tight, clip in ((True, None), (None, True), (True, True)):
+                    for lim in ([4, None], [None, 9]):
+                        if clip is None and not th and (requested(L) > 2 or nst != 'NM' or lim[0] is None):
+                            continue    # symbolic bounds (sympy) per member: two wrapper runs (quick)
+                        out.append(dict(L, api='wrapper', nested=nst, box='shift', tight=tight, clip=clip, con='clamp/pure', pen=None, limits=lim,
+                                        term=None, evalmon=True, map='default', mode=mode, cost='sphere', seed=ctx.seed, diff=True))
+    # differential-evolution members (best kept apart from population[0]) through the wrappers
+    for L in ({'ens': 'lattice', 'nbins': [2, 2]}, {'ens': 'lattice', 'nbins': [3]}, {'ens': 'buckshot', 'dim': 2, 'npts': 3}):
+        for nst in ('DE', 'DE2'):
+            for mode in ('solve', 'stepsolve'):
+                for feat in ((None, None), ('clamp/pure', 'ramp')):
+                    for lim in ([3, None], [None, 30]):
+                        out.append(dict(L, api='wrapper', nested=nst, box='unit', con=feat[0], pen=feat[1], limits=lim, term=None,
+                                        evalmon=True, map='default', mode=mode, cost='sphere', seed=ctx.seed, family='de'))
     return out
 
 
@@ -807,6 +893,10 @@ def weight(cfg):
         w += 25 * n
     if cfg.get('limits') is None:
         w *= 6 if cfg.get('term') else 20
+    if cfg.get('diff'):
+        w *= 1.5
+    if cfg.get('tight') and cfg.get('clip') is None:
+        w += 40 * n         # symbolic bounds constraint rebuilt for every member
     return w
 
 
@@ -869,7 +959,8 @@ def run(ctx):
     order = {'S': 0, 'R': 1, 'W': 2, 'Gfill': 3}
     items.sort(key=lambda it: order.get(it[0], 9))
     ctx.bounds = {
-        'layouts': layouts(th), 'nested': ['NM', 'Powell'] + (['DE(NP=4)'] if th else []), 'boxes': ['unit[-1,2]', 'shift[0.25,3]', 'degen(x0=0.5)', 'none'],
+        'layouts': layouts(th), 'nested': ['NM', 'Powell', 'DE(NP=4) and DE2(NP=4): slice A6 in quick, full product in thorough (DE)'],
+        'range_modes(tight,clip)': [[None, None], [True, None], [None, True], [True, True]], 'boxes': ['unit[-1,2]', 'shift[0.25,3]', 'degen(x0=0.5)', 'none'],
         'constraint': [None, 'clamp x0<=0.75 (pure)'], 'penalty': [None, 'ramp 10*max(0,sum(x)-1)'],
         'limits(maxiter,maxfun)': [None] + (LIMITS_T if th else LIMITS_Q), 'termination': ['ensemble default', 'VTR(1/16)', 'ChangeOverGeneration(1/64,1)', 'never'],
         'maps': ['none (SetMapper not called)', 'default (traced python_map)', 'fwd', 'rev', 'copy (dill)', 'copyrev', 'every permutation x {share,copy} for 2-3%s members' % ('-4' if th else '')],
@@ -888,7 +979,9 @@ def run(ctx):
         "member iterations are observed by wrapping _Step of the nested solver classes for the duration of one execution",
         "nested solvers draw from a private seeded generator; only numpy rand behind samplepts is enumerated answer by answer (part C)",
         "limits are judged in the C05 sense: no member iteration begins when generations >= maxiter, real evaluations >= maxfun or the termination condition holds",
-        "MixedSolver, Collapse, SetDistribution on ensembles and tight/clip range modes are outside this check",
+        "differential clause: an NM / Powell member must make exactly the cost calls of a stand-alone nested solver configured by hand with the ensemble's start, "
+        "box and range mode (tight / clip=True), constraint, penalty, limits and termination (clip=False re-enters at random and is left to C02)",
+        "MixedSolver, Collapse, SetDistribution on ensembles and a configured nested solver *instance* are outside this check",
     ]
     ctx.pmap(_dispatch, items)
     ctx.tally.samples = curated_samples(ctx)
